@@ -425,4 +425,56 @@ def r16_9(ctx: Ctx) -> RuleResult:
     return rr
 
 
-RULES = [r16_1, r16_2, r16_3, r16_4, r16_5, r16_6, r16_7, r16_8, r16_9]
+def r16_10(ctx: Ctx) -> RuleResult:
+    """Which final tokens take an index offset: every int (0 included - the first element of an array) and every str
+    in canonical decimal form; nothing else.  The recogniser is executed abstractly on a covering set of tokens."""
+    from sa.peval import UNKNOWN
+
+    from .model import RAISES
+    from .model import MObj
+    from .model import Model
+
+    rr = RuleResult("R16.10", "the index recogniser accepts every array index and nothing else", floor=10)
+    cls = ctx.repo.require_class("RelativeJSONPointer")
+    fn = cls.methods.get("_int_like")
+    if fn is None:
+        raise AnalysisError("R16.10: RelativeJSONPointer._int_like not found")
+    samples = [(0, True), (1, True), (12, True), (-1, True), ("0", True), ("7", True), ("12", True),
+               ("01", False), ("+1", False), ("1_0", False), ("a", False), ("", False), ("-", False)]
+    for tok, want in samples:
+        model = Model(ctx, "R16.10")
+        model.whole_bodies = True
+        obj = MObj(model, "RelativeJSONPointer", {"origin": 0, "index": 1, "pointer": UNKNOWN})
+        got = model.call(obj, "_int_like", [tok])
+        if got is UNKNOWN or got is RAISES:
+            raise AnalysisError(f"R16.10: _int_like({tok!r}) cannot be determined ({got!r})")
+        if bool(got) == want and isinstance(got, bool):
+            rr.ok(fn.loc(), f"_int_like({tok!r}) is {want}")
+        else:
+            rr.bad(fn, fn.node, f"_int_like({tok!r}) is {got!r}: " + (
+                "an index offset is silently dropped for this array index (`/foo/0` with `0+1` stays `/foo/0`)" if want else
+                "an index offset is applied to a token that is a member name"), construct=f"_int_like({tok!r}) -> {got!r}")
+    return rr
+
+
+def r16_11(ctx: Ctx) -> RuleResult:
+    """`pointer.to(rel)` is `RelativeJSONPointer(rel).to(pointer)`: the second entry point has no logic of its own, so
+    the two cannot disagree (a shortcut there - e.g. for the root pointer - skips the refusals of the first)."""
+    rr = RuleResult("R16.11", "JSONPointer.to only delegates to RelativeJSONPointer.to", floor=1)
+    fn = ctx.repo.require_func("JSONPointer.to")
+    rets = [r for r in ast.walk(fn.node) if isinstance(r, ast.Return)]
+    if not rets:
+        raise AnalysisError("R16.11: JSONPointer.to returns nothing")
+    for r in rets:
+        v = r.value
+        ok = (isinstance(v, ast.Call) and isinstance(v.func, ast.Attribute) and v.func.attr == "to" and len(v.args) == 1 and path_of(v.args[0]) == "self"
+              and not v.keywords)
+        if ok:
+            rr.ok(fn.loc(r), f"`{short(r)}`")
+        else:
+            rr.bad(fn, r, f"`{short(r)}` is a result of JSONPointer.to that does not come from RelativeJSONPointer.to(self): the two ways of applying a "
+                   "relative pointer disagree (the refusals for too many steps / `#` at the root are skipped)", construct=f"JSONPointer.to: {short(r, 60)}")
+    return rr
+
+
+RULES = [r16_1, r16_2, r16_3, r16_4, r16_5, r16_6, r16_7, r16_8, r16_9, r16_10, r16_11]
